@@ -282,6 +282,89 @@ CHECKS = {
                   "(k vs k=1) oracle and per-pass monitoring",
         engine="grid",
     ),
+    "C01": dict(
+        category="exploration",
+        text="Full cartesian grid with known ground truth: 5 shipped models "
+             "x modulus over 4 decades x contact point x baseline x geometry "
+             "x sampling (60/300/1500 points, uniform/non-uniform) x segment "
+             "x weighting width x minimizer (leastsq, nelder) x all 8 "
+             "corners of the stated convergence basin x noise level x noise "
+             "realisation (quick: a sub-grid in which every axis takes >= 2 "
+             "values); success flag, parameter recovery to optimiser "
+             "precision, curve recovery, noise-proportional error bounds.",
+        design_ref="DESIGN.md §2 C01",
+        note="The convergence basin and the noise constants are stated by "
+             "the check (regression bounds); the layered model's sample "
+             "modulus is checked noise-free with identifiable layer "
+             "parameters held fixed.",
+        technique="exhaustive bounded enumeration of generated inputs with "
+                  "ground-truth oracle",
+        engine="grid",
+    ),
+    "C07": dict(
+        category="exploration",
+        text="Full product of a well-formed curve family (5 models x noise "
+             "x tilt x drift x turning-point lag x height quantisation) plus "
+             "recorded curves; every step is applied as the last step of "
+             "its minimal pipeline with every option value (6 contact-point "
+             "methods, 3 regions x 2 strategies) and compared with the state "
+             "just before it through relations (constant shift, zero at the "
+             "estimated index, untouched outside the region, no jump, trend "
+             "removed, single switch at the farthest point, strict "
+             "monotonicity, un-owned columns byte-identical).",
+        design_ref="DESIGN.md §2 C07",
+        note="'Well-formed' is a predicate on the raw curve fixed up front.",
+        technique="exhaustive bounded enumeration with relational "
+                  "(before/after) oracles",
+        engine="grid",
+    ),
+    "C08": dict(
+        category="exploration",
+        text="Full product estimator (6) x curve family (5 models x 3 noise "
+             "levels x 3 baseline fractions x tilt x 2 lengths) x 12 "
+             "transformations (power-of-two and other scales, shifts, "
+             "combinations), a degenerate family (7 shapes x 11 lengths) and "
+             "recorded curves: valid index, exact invariance for dyadic "
+             "scales, within one sample otherwise, stated accuracy on clean "
+             "curves, documented fallback without exception.",
+        design_ref="DESIGN.md §2 C08",
+        note="Accuracy fractions are regression bounds per estimator and "
+             "baseline class.",
+        technique="exhaustive bounded enumeration with metamorphic "
+                  "(scale/shift) and ground-truth oracles",
+        engine="grid",
+    ),
+    "C15": dict(
+        category="exploration",
+        text="Every training matrix over {finite(row, col), NaN, +inf, "
+             "-inf} for shapes up to 3x2 / 2x3 (thorough: 3x3, 4x2 with a "
+             "bound on non-finite cells) x every response vector x all 8 "
+             "flag combinations, written as a real training-set directory "
+             "and loaded, against a row-wise reference; all rating vectors "
+             "over 0..10 up to length 4 for the sample weights; container -> "
+             "export_training_set -> load_training_set round trips.",
+        design_ref="DESIGN.md §2 C15",
+        note="Loads whose reference is undefined (a column with only +-inf) "
+             "are counted, not judged.",
+        technique="exhaustive enumeration of small inputs against a "
+                  "reference implementation (small-scope)",
+        engine="grid",
+    ),
+    "C17": dict(
+        category="exploration",
+        text="Full product of fitted curve states (3 models x 3 noise "
+             "levels x spikes x 3 approach lengths x 3 contact positions), "
+             "unfitted / edited / unsuccessful states and recorded good and "
+             "bad curves x 21 feature subsets x 5 common scale factors x "
+             "retract perturbation: ranges, order/alignment, curve "
+             "unchanged, bit-exact invariance for dyadic scales.",
+        design_ref="DESIGN.md §2 C17",
+        note="Scaling is applied to the force and fit columns of the fitted "
+             "state, as the property words it.",
+        technique="exhaustive bounded enumeration with range and "
+                  "metamorphic oracles",
+        engine="grid",
+    ),
 }
 
 NA_REASON = "check not built yet in this session (under construction; see DESIGN.md §9 work order)"
@@ -320,7 +403,7 @@ def build():
              "kind_free_text": "complete enumeration of a finite input domain on the implementation"},
             {"name": "hist", "path": "mc/hist.py", "serves_properties": ["C03", "C06", "C09", "C10", "C12", "C16", "C20"],
              "kind_free_text": "explicit-state breadth-first search over operation histories on real objects (replay from scratch, canonical state hash, per-state and per-transition oracles, merge-soundness and determinism self-checks)"},
-            {"name": "grid", "path": "mc/grid.py", "serves_properties": ["C02", "C04", "C05", "C11", "C13"],
+            {"name": "grid", "path": "mc/grid.py", "serves_properties": ["C01", "C02", "C04", "C05", "C07", "C08", "C11", "C13", "C15", "C17"],
              "kind_free_text": "exhaustive cartesian enumeration of inputs/configurations, chunked over a spawn pool, reference-model or relational oracle per cell"},
             {"name": "store", "path": "mc/props/c03_store.py", "serves_properties": ["C03", "C18", "C19"],
              "kind_free_text": "closure (fixpoint) search of small dictionary-like stores against a reference model"},
